@@ -122,19 +122,16 @@ func otherType(t string) string {
 func (k kase) stepClass(i int, reps, origins []string, modified bool) string {
 	st := k.Seq[i]
 	srcRep := reps[st.Src]
-	pairing := srcRep
+	pairing := cloneClass(srcRep)
 	if st.Op == "Copy" {
 		dr := st.DstRep
 		if st.Dst == "obj" {
 			dr = reps[st.DstObj]
 		}
-		switch {
-		case st.Dst == "other-type":
-			pairing = "difftype:" + srcRep + "->" + dr
-		case dr == srcRep:
-			pairing = "same:" + srcRep
-		default:
-			pairing = srcRep + "->" + dr
+		if st.Dst == "other-type" {
+			pairing = pairClass("difftype:", srcRep, dr)
+		} else {
+			pairing = pairClass("", srcRep, dr)
 		}
 	}
 	if i == 0 {
@@ -252,7 +249,7 @@ func runSeqMode(k kase, detailed bool) (o outcome) {
 	c := mkAdapter(k.Adapter)
 	base := specByName[k.Src]
 	objs := []interface{}{base.instance(k.SrcRep)}
-	reps = []string{k.SrcRep}
+	reps = []string{tagRep(k.SrcRep, 0)}
 	origins := []string{"base"} // base | clone-result | copy-dest (what the adapter did to the object last)
 	dirty := []bool{false}      // modified by its owner since the adapter last read or wrote it
 	first, err := stamp(objs[0])
@@ -438,7 +435,7 @@ func runSeqMode(k kase, detailed bool) (o outcome) {
 		} else {
 			resRep, origin := reps[st.Src], "clone-result"
 			if st.Op == "Copy" {
-				resRep, origin = st.DstRep, "copy-dest"
+				resRep, origin = tagRep(st.DstRep, i+1), "copy-dest"
 			}
 			objs, reps, origins, dirty, canons = append(objs, res), append(reps, resRep), append(origins, origin), append(dirty, false), append(canons, resCanon)
 			lastSrc, lastRes, lastStep, lastDirty = st.Src, len(objs)-1, i, dirty[st.Src]
@@ -572,6 +569,11 @@ func seqPool(thorough bool) []*spec {
 // was a refusal or a copy into an earlier object). withFill: also the copies into
 // a pre-populated destination.
 func stepVariants(s *spec, exists []bool, mods []string, withFill bool) []step {
+	return stepVariantsReps(s, exists, mods, withFill, []string{"gen", "dyn"})
+}
+
+// stepVariantsReps: stepVariants with the representations of the destinations the steps make.
+func stepVariantsReps(s *spec, exists []bool, mods []string, withFill bool, dstReps []string) []step {
 	var out []step
 	first := len(exists) == 1
 	var fill string
@@ -587,11 +589,11 @@ func stepVariants(s *spec, exists []bool, mods []string, withFill bool) []step {
 				continue // a modified base object is just another message
 			}
 			out = append(out, step{Op: "Clone", Src: src, Mod: mod})
-			for _, dr := range []string{"gen", "dyn"} {
+			for _, dr := range dstReps {
 				out = append(out, step{Op: "Copy", Src: src, Mod: mod, Dst: "empty", DstRep: dr})
 			}
 			if fill != "" {
-				for _, dr := range []string{"gen", "dyn"} {
+				for _, dr := range dstReps {
 					out = append(out, step{Op: "Copy", Src: src, Mod: mod, Dst: "fill", DstRep: dr, DstFill: fill})
 				}
 			}
